@@ -977,17 +977,28 @@ impl Model {
             return;
         }
         let mut seen = BTreeSet::new();
+        let mut repeated: BTreeSet<String> = BTreeSet::new();
         for n in &names {
             if !seen.insert(n.clone()) {
-                se.ambiguous = Some("JOIN list with a repeated channel".into());
-                return;
+                // a channel named twice in one JOIN: the statement does not say what the second mention does
+                // (R3: as for a channel one is already on - any reply, no further state change)
+                if self.cfg.max_joins.is_some() {
+                    se.ambiguous = Some("JOIN list with a repeated channel under a max_joins quota".into());
+                    return;
+                }
+                repeated.insert(n.clone());
             }
         }
         // decisions are taken against the state before the command (as one atomic command)
         let mut count = self.users[&nick].chans.len();
         let mut decisions: Vec<(String, bool)> = vec![];
+        let mut first_seen: BTreeSet<String> = BTreeSet::new();
         for (i, name) in names.iter().enumerate() {
             let key = keys.as_ref().map(|k| k[i].as_str());
+            if !first_seen.insert(name.clone()) {
+                se.labels.push("JOIN/repeated_in_list".into());
+                continue;
+            }
             match self.chans.get(name) {
                 Some(ch) if ch.members.contains_key(&nick) => {
                     // R3: already a member - any refusal numeric or nothing; no state change
@@ -1078,6 +1089,34 @@ impl Model {
                 if m != &nick {
                     self.to_nick(se, m, jl.clone());
                 }
+            }
+            if repeated.contains(name) {
+                let mut opts = vec![jl.clone(), format!("366 {}", name)];
+                if let Some((t, _)) = &ch.topic {
+                    opts.push(format!("332 {}{}{}", name, SEP, t));
+                }
+                if let Some(nl) = self.names_line(c, &ch) {
+                    opts.push(nl);
+                }
+                for n in ["475", "474", "473", "471", "405"] {
+                    opts.push(format!("{} {}", n, name));
+                }
+                self.push_e(se, Exp::Optional { c, options: opts });
+                for m in ch.members.keys() {
+                    if m != &nick {
+                        if let Some(u) = self.users.get(m) {
+                            let uc = u.conn;
+                            self.push_e(se, Exp::Optional { c: uc, options: vec![jl.clone()] });
+                        }
+                    }
+                }
+            }
+        }
+        for name in &repeated {
+            if !decisions.iter().any(|(n, ok)| n == name && *ok) {
+                // refused the first time: the repeat may be refused again
+                let opts: Vec<String> = ["475", "474", "473", "471", "405"].iter().map(|n| format!("{} {}", n, name)).collect();
+                self.push_e(se, Exp::Optional { c, options: opts });
             }
         }
     }
@@ -2152,10 +2191,6 @@ impl Model {
         }
         let nick = self.conns[c].nick.clone().unwrap();
         if !self.users[&nick].modes.o {
-            if self.users[&nick].modes.lo {
-                se.ambiguous = Some("KILL by a local operator".into());
-                return;
-            }
             self.push(se, c, "481".into());
             se.labels.push("KILL/481".into());
             return;
@@ -2172,10 +2207,6 @@ impl Model {
     fn die(&mut self, c: usize, msg: Option<String>, se: &mut StepExp) {
         let nick = self.conns[c].nick.clone().unwrap();
         if !self.users[&nick].modes.o {
-            if self.users[&nick].modes.lo {
-                se.ambiguous = Some("DIE by a local operator".into());
-                return;
-            }
             self.push(se, c, "483".into());
             se.labels.push("DIE/483".into());
             return;
